@@ -420,7 +420,8 @@ def run(seed, tier, extra_cases=None, use_cache=True):
             ra, rb = resps[2 * i], resps[2 * i + 1]
             bycase[rid] = {"name": c["name"], "code": c["code"], "config": c["config"], "file": c["file"], "reader": c["reader"],
                            "kind": c["kind"], "outcome": ra.get("outcome"), "error": ra.get("error"),
-                           "content": ra.get("content"), "key": [c["code"], c["config"], c["file"], c["reader"]]}
+                           "content": ra.get("content"), "key": [c["code"], c["config"], c["file"], c["reader"]],
+                           "range_tokens": sum(1 for t in c.get("otoks") or [] if t.get("rng"))}
             rec = vlib.static_record(rid, reqs[2 * i], ra, with_pos=True)
             rec["kindref"] = c["kind"]
             rec["parent"] = c["reader"]["parent"]
